@@ -602,9 +602,11 @@ func (conn *Tunnel) serve() {
 	util.Log(conn, "Started worker")
 	defer util.Log(conn, "Worker exited")
 
+	// Deferred calls run last-in first-out: Close may only be released (wait.Done) after the
+	// channels have been closed.
+	defer conn.wait.Done()
 	defer close(conn.ack)
 	defer close(conn.inbound)
-	defer conn.wait.Done()
 
 	for {
 		err := conn.process()
